@@ -1080,6 +1080,7 @@ def c12(ctx):
     keep = DIGEST + ("PANIC", "FAULT", "W", "FIN", "NONE", "OK", "WERR")
     multi_dynamic(ctx, ("dev", "release"), make, oracle, keep, "std adapters", "C12")
     hashone_check(ctx)
+    facts_gate(ctx, "C12")     # adapters come only from the two audited macros of src/macros.rs
     proof_verdict(ctx, ok)
 
 
